@@ -9,7 +9,9 @@ Definition payload := (option (list bytes) * option (list bytes))%type.
 
 Inductive scase :=
   (* a service configuration, served on the recording connection *)
-  | SC (name : bytes) (res acc : option (list bytes)) (has_res has_acc : bool) (queue : bytes)
+  | SC (name : bytes) (res acc : option (list bytes))
+       (handlers : layout)                      (* every Handle call: full pattern below the service name, has Get/Call/Auth/New, has Access *)
+       (queue : bytes)
        (g_err : N)                              (* Serve outcome: 0 serving, 1 "no resources to serve", 2 subscribe error from the connection, 3 other *)
        (g_subs : list (bytes * bytes * bool))   (* every ChanSubscribe / ChanQueueSubscribe in order: subject, queue ([] = ChanSubscribe), rejected by the connection *)
        (g_resets : list payload)                (* system.reset payloads in order: start, then one per extra ResetAll / reconnect *)
@@ -64,8 +66,8 @@ Fixpoint until_bad (calls : list (bytes * bytes)) : list (bytes * bytes) * bool 
   | c :: r => if bad_subject (fst c) then ([c], true) else let (l, b) := until_bad r in (c :: l, b)
   end.
 
-Definition cfg_of (name : bytes) (res acc : option (list bytes)) (hr ha : bool) (queue : bytes) : config :=
-  Cfg name res acc hr ha queue.
+Definition cfg_of (name : bytes) (res acc : option (list bytes)) (l : layout) (queue : bytes) : config :=
+  cfg_layout name res acc l queue.
 
 (* payloads of the ResetAll on start and of the n further ones *)
 Definition expected_resets (c : config) (n : nat) : list payload :=
@@ -75,8 +77,8 @@ Definition expected_resets (c : config) (n : nat) : list payload :=
    4 reset payloads  5 unexpected publishes  6 nats validity (server)  7 nats delivery (server) *)
 Definition check_case (k : scase) : list N :=
   match k with
-  | SC name res acc hr ha queue g_err g_subs g_resets g_extra g_other =>
-    let c := cfg_of name res acc hr ha queue in
+  | SC name res acc l queue g_err g_subs g_resets g_extra g_other =>
+    let c := cfg_of name res acc l queue in
     match subscribe c with
     | NoResources =>
       (if g_err =? 1 then [] else [1]) ++
@@ -176,11 +178,12 @@ Definition payload_exact (res acc : list bytes) (p : payload) : bool :=
      a number of recorded subscriptions other than one *)
 Definition viol_case (k : scase) : list N :=
   match k with
-  | SC name res acc hr ha queue g_err g_subs g_resets g_extra g_other =>
-    let c := cfg_of name res acc hr ha queue in
+  | SC name res acc l queue g_err g_subs g_resets g_extra g_other =>
+    let c := cfg_of name res acc l queue in
     if negb (cfg_ok c) then [] else
-    let ores := spec_owned name res hr in
-    let oacc := spec_owned name acc ha in
+    (* "for the handler kinds actually registered": some registered handler has the kind *)
+    let ores := spec_owned name res (existsb h_res l) in
+    let oacc := spec_owned name acc (existsb h_acc l) in
     let recorded := map (fun x => fst (fst x)) (filter (fun x => negb (snd x)) g_subs) in
     let attempted := map (fun x => fst (fst x)) g_subs in
     let serving := negb (is_nil ores && is_nil oacc) in
